@@ -47,6 +47,8 @@ def main():
     test_common()
     n = test_exprref()
     print(f"selftest ok: exprref {n} evaluations fit their documented shapes")
+    from vf.checks import c16
+    print(f"selftest ok: crcref reproduces {c16.selftest()} published check values")
     try:
         from vf.rtlil import cells
         print("rtlil cells:", cells.selftest())
